@@ -76,7 +76,10 @@ def set_discipline(interp: Interp, v: V, disc):
 
 def arg_term(interp: Interp, st: St, args, kwargs):
     if kwargs:
-        raise Unsupported("keyword arguments to a symbolic callable")
+        names = sorted(kwargs)
+        ts = [interp.term(st, a) for a in args] + [interp.term(st, kwargs[n]) for n in names]
+        fname = f"args_{len(args)}_kw_" + "_".join("STAR" if n == "**" else n for n in names)
+        return z3.Function(fname, *([T.Val] * len(ts)), T.Val)(*ts)
     if len(args) == 1:
         return interp.term(st, args[0])
     ts = [interp.term(st, a) for a in args]
@@ -174,7 +177,7 @@ def call_symbolic(interp: Interp, st: St, f: V, args, kwargs):
         yield from call_factory(interp, st, ft, args, kwargs)
         return
     at = arg_term(interp, st, args, kwargs)
-    st.calls.append((ft, at))
+    st.calls.append((ft, at, list(args), dict(kwargs)))
     if disc.exc_base is None:
         st.assume(T.F_ok(ft, at))
         yield st, ("ok", V("sym", t=T.F_res(ft, at)))
@@ -186,6 +189,9 @@ def call_symbolic(interp: Interp, st: St, f: V, args, kwargs):
             # a *new* exception object per call (exceptions are mutated by append_trail, so identity matters);
             # what is deterministic is its class and the input value it reports
             e = interp.ctx.fresh_val("err")
+            for prev in s.assumed:          # a new object: different from every exception object raised before
+                s.assume(e != prev)
+            s.assumed.append(e)
             s.assume(T.F_cls(e) == T.F_errcls(ft, at))
             for anc in disc.exc_base.__mro__:       # upward closure of the subclass relation, instantiated locally
                 s.assume(T.F_sub(T.F_cls(e), interp.reg.cls(anc)))
